@@ -1,26 +1,29 @@
-\* exhaustive: every mailbox of <= 2 messages over a small message universe x
-\* every key tree of depth <= 2 over 4 leaves; invariants of the evaluator
+\* exhaustive: every mailbox of <= 2 messages over a small message universe
+\* (seen or not, recent suffix, any subset expunged-but-hidden and therefore
+\* deleted, UIDs 101/103) x every key tree of depth <= 2 over 4 leaves (SEEN,
+\* DELETED, a sequence set with "*", a UID range); invariants of the evaluator
 SPECIFICATION Spec
 CONSTANTS
   Exhaustive = TRUE
   Rewrites = FALSE
-  MaxMsgs = 1
+  MaxMsgs = 2
   Uids = {101, 103}
   SysFlags = {"Seen"}
   Kws = {}
   Sizes = {2}
   Days = {1}
   Shifts = {0}
-  Fields = {"Subject"}
+  WithNoSent = FALSE
+  Fields = {}
   Tokens = {}
-  LeafOps = {"SEEN", "HEADER", "SEQ", "UID"}
+  LeafOps = {"SEEN", "DELETED", "SEQ", "UID"}
   KwKeys = {}
   SizeKeys = {}
   DayKeys = {}
-  HdrKeys = {"Subject"}
+  HdrKeys = {}
   SeqSets <- SmallSeqSets
   UidSets <- SmallUidSets
-  DateModes = {"written", "utc"}
+  DateModes = {"written"}
   Devs = {"BodyKeyMatchesHeaders", "UidSearchSeqSetAsUid", "DoubleNotRejected"}
   NumMb = 0
   NumLeaf = 0
